@@ -285,6 +285,77 @@ Section WithHash.
     r <- _traverse_from (traverse_fuel trie_key) parent_raw trie_key trie_key ;;
     annotate_or_simulate r.
 
+  (* ---------------- read accounting (property C08: "at most one database entry per child hop") ----------------
+     [ref_key ref] is the database key get_node looks up for a reference (none for blank / embedded
+     references); [traverse_from_reads] lists, in order, the keys that _traverse_from looks up while it
+     consumes [rem] from [node] (a failing lookup included), and [traverse_from_hops] counts its child
+     hops.  The harness compares the length of the former with the number of self.db[...] reads the
+     implementation makes during traverse_from (counting proxy). *)
+  Definition ref_key (ref : item) : list bytes :=
+    match ref with
+    | RStr [] => []
+    | RStr h => if bytes_eqb h BNH then [] else if Nat.ltb (length h) 32 then [] else [h]
+    | RList _ => []
+    end.
+
+  Fixpoint traverse_from_reads (fuel : nat) (node : item) (rem : nibbles) (t : trie) : list bytes :=
+    match fuel with
+    | O => []
+    | S f =>
+        let follow (ref : item) (rem' : nibbles) :=
+          ref_key ref ++ match get_node ref t with
+                         | (Ok n', _) => traverse_from_reads f n' rem' t
+                         | (Err _, _) => []
+                         end in
+        match rem with
+        | [] => []
+        | r0 :: rtail =>
+            match get_node_type node with
+            | Ok TExt =>
+                match extract_key node with
+                | Ok ck =>
+                    let '(_, cur_rem, key_rem) := consume_common_prefix ck rem in
+                    match cur_rem with
+                    | [] => follow (kv_second node) key_rem
+                    | _ :: _ => []
+                    end
+                | Err _ => []
+                end
+            | Ok TBranch => follow (branch_child node r0) rtail
+            | _ => []
+            end
+        end
+    end.
+
+  Fixpoint traverse_from_hops (fuel : nat) (node : item) (rem : nibbles) (t : trie) : nat :=
+    match fuel with
+    | O => O
+    | S f =>
+        let follow (ref : item) (rem' : nibbles) :=
+          S (match get_node ref t with
+             | (Ok n', _) => traverse_from_hops f n' rem' t
+             | (Err _, _) => O
+             end) in
+        match rem with
+        | [] => O
+        | r0 :: rtail =>
+            match get_node_type node with
+            | Ok TExt =>
+                match extract_key node with
+                | Ok ck =>
+                    let '(_, cur_rem, key_rem) := consume_common_prefix ck rem in
+                    match cur_rem with
+                    | [] => follow (kv_second node) key_rem
+                    | _ :: _ => O
+                    end
+                | Err _ => O
+                end
+            | Ok TBranch => follow (branch_child node r0) rtail
+            | _ => O
+            end
+        end
+    end.
+
   (* ---------------- writing ---------------- *)
   Definition blank17 : list item := repeat BLANK 17.
 
